@@ -2,6 +2,7 @@ import Driver.Proto
 import CifModel.Model.Ladder
 import CifModel.Model.LadderMap
 import CifModel.Model.LadderTree
+import CifModel.Model.LadderIter
 /-
   family `ladder` (C17): allocation/free pattern of three library functions under one failed allocation.
     ladder dup <n> <k>                      dup_ustrings on n strings, k-th allocation fails (0 = none)
@@ -23,6 +24,9 @@ import CifModel.Model.LadderTree
     ladder vclone <vshape…> <k>             cif_value_clone of ANY value (Model/LadderTree `cloneV`): tables at any depth
     ladder vdeser <vshape…> <k>             cif_value_deserialize of the blob of ANY list / table value (`deserV`)
                                             vshape tokens: S | C | M0 | M1 | [ vshape* ] | { (<key-hex> vshape)* }
+    ladder getpackets <n> <name-hex>*n <k>  cif_loop_get_packets on a stored loop with the n (normalised) item names and one packet
+    ladder nextpacket <keep 0|1> <n> (<name-hex> <vshape…>)*n <k>   cif_pktitr_next_packet: the loop's only packet has the given
+                                            values; keep = 1: handed to the caller (*packet == NULL), 0: dropped (packet == NULL)
     ladder names <n> <k>                    cif_loop_get_names on a stored loop with n item names (the code as it is:
                                             getNamesPinned)
   shape tokens: S (unknown/na) | C (char) | M0 | M1 (number without / with su) | [ shape* ]
@@ -246,6 +250,35 @@ def handle : Handler
           let b ← (match sh with | .lst es => some (VBlob.lst es) | .tbl es => some (VBlob.tbl es) | _ => none)
           let (rc, _, st) := deserV k b
           pure (summary rc st.evs ++ s!" code={rc}")
+      | _ => none
+  | "getpackets" :: nT :: rest => do
+      let n ← nT.toNat?
+      if rest.length ≠ n + 1 then none
+      let names ← (rest.take n).mapM unhex
+      let k ← (rest.drop n).head?.bind String.toNat?
+      let (rc, _, st) := getPackets k (names.map (fun nm => hashJen (keyBytes nm)))
+      pure (summary rc st.evs)
+  | "nextpacket" :: keepT :: nT :: rest => do
+      let keep ← parseBool keepT
+      let n ← nT.toNat?
+      let rec items (fuel : Nat) (toks : List String) (acc : List (Nat × ItemVal)) : Option (List (Nat × ItemVal) × List String) :=
+        match fuel with
+        | 0 => some (acc.reverse, toks)
+        | fuel + 1 =>
+          match toks with
+          | [] => none
+          | t :: r => do
+            let nm ← unhex t
+            let (sh, r') ← parseV (r.length + 1) r
+            let iv : ItemVal := match sh with
+              | .scalar => .unk | .chr => .chr | .numb b => .numb b | .lst es => .blob (.lst es) | .tbl es => .blob (.tbl es)
+            items fuel r' ((hashJen (keyBytes nm), iv) :: acc)
+      let (its, r) ← items n rest []
+      match r with
+      | [kT] => do
+          let k ← kT.toNat?
+          let (rc, _, st) := nextPacket k keep its
+          pure (summary rc st.evs)
       | _ => none
   | "insert" :: full :: rest => do
       let full ← parseBool full
